@@ -394,7 +394,7 @@ Proof.
   { intros r' Hne. rewrite (s_nstart _ _ S). apply bool_eq_iff. rewrite !has_exchange_iff. rewrite Ex. split; intros [e [He1 He2]]; exists e; split; auto.
     - apply in_xdel. split; auto. intros Hk'. apply Hne. rewrite <- He2. unfold e_remote. rewrite Hk'. reflexivity.
     - apply Hrest in He1. tauto. }
-  unfold _continue_backlog in H. rewrite Eb, Q in H. cbn [Nat.add _continue_backlog_loop] in H. rewrite HX2, Eb, Q in H.
+  unfold _continue_backlog in H. rewrite Eb, Q in H. cbn [Nat.add _continue_backlog_loop] in H. rewrite Eb, Q, HX2 in H.
   destruct q as [|[m2 mon2] rest].
   - inv H. proj. splits; auto; [|apply no_error_nil|exists []; auto].
     constructor; proj; rewrite ?Ex, ?Er, ?Enr; auto; try apply (s_norefuse _ _ S).
@@ -418,7 +418,9 @@ Proof.
     + destruct SI as (S' & t & Hrg & -> & E1 & E2 & E3 & E4).
       assert (HX4 : has_exchange_with st4 r = true).
       { apply has_exchange_iff. rewrite E3. eexists. split; [apply in_xset; left; reflexivity|]. unfold e_remote. cbn. exact Hr2. }
-      cbn [_continue_backlog_loop] in H. rewrite HX4 in H. inv H. cbn [app]. splits; auto.
+      assert (in_backlogs st4 r = true) as IB4 by (rewrite (s_nstart _ _ S'); exact HX4).
+      unfold in_backlogs in IB4. destruct (qget r (backlogs st4)) as [q4|] eqn:Q4; [|discriminate].
+      cbn [_continue_backlog_loop] in H. rewrite ?Q4, HX4 in H. inv H. cbn [app]. splits; auto.
       * intros t' e Hi. cbn in Hi. destruct Hi as [Hi|[Hi|Hi]]; try discriminate. tauto.
       * rewrite E1. cbn. auto.
       * exists ((m2, m_rid m2) :: rest). split; auto. splits; auto. exists t. splits; auto.
@@ -524,7 +526,7 @@ Proof.
   pose proof (s_norefuse _ _ S) as Hnr.
   pose proof (s_bl _ _ S) as Hbl. rewrite Forall_forall in Hbl.
   destruct (h_counter h <? MAX_RETRANSMIT (m_tuning m)) eqn:Hlt.
-  - unfold _send_via_transport, is_refusing in H. proj. rewrite Hnr in H. cbn in H. inv H. proj. splits; auto.
+  - unfold _schedule_retransmit, _send_via_transport, is_refusing in H. proj. rewrite Hnr in H. cbn in H. inv H. proj. splits; auto.
     2:{ intros t e Hi. cbn in Hi. destruct Hi as [Hi|Hi]; [discriminate|tauto]. }
     2:{ left. splits; auto. lia. }
     set (h2 := {| h_due := now st + h_timeout h * 2; h_seq := next_seq st; h_message := m; h_timeout := h_timeout h * 2; h_counter := h_counter h + 1 |}).
@@ -548,7 +550,7 @@ Proof.
         -- exists (k, (m_rid m, h)). split; auto.
         -- apply Hrest in He1. exists e. tauto.
     + apply (s_rng _ _ S).
-    + exact Hnr.
+    + first [exact Hnr | reflexivity].
   - assert (Q' : qget (m_remote m) (backlogs st) = Some q) by exact Q. proj. rewrite Q' in H. unfold tm_dispatch_error in H. inv H. proj. splits; auto.
     2:{ intros t e Hi. apply in_map_iff in Hi. destruct Hi as [x [Hx _]]. discriminate. }
     2:{ right. splits; auto. lia. }
@@ -568,7 +570,7 @@ Proof.
         -- apply in_xdel. split; auto. intros Hk'. apply Hne. rewrite <- He2. unfold e_remote. rewrite Hk'. reflexivity.
         -- apply Hrest in He1. tauto.
     + apply (s_rng _ _ S).
-    + exact Hnr.
+    + first [exact Hnr | reflexivity].
 Qed.
 
 Lemma next_timer_facts : forall st h, next_timer st = Some h ->
